@@ -96,9 +96,17 @@ BODY_KEYS = ['none', 's', 'ii', 'x', 't', 'vbig', 'vneg', 'vplain', 'vsmall', 'a
 
 
 def body_token(sig, body):
+    """Token of a body the bus builds itself (signals of the name functions): decoded values."""
     if not sig:
         return 'nobody'
     return sig + ':' + hashlib.sha1(repr(body).encode('utf-8', 'backslashreplace')).hexdigest()[:10]
+
+
+def raw_token(endian, sig, raw_body):
+    """Token of a client's body: byte order, signature and the body bytes exactly as on the wire."""
+    if not sig and not raw_body:
+        return 'nobody' if endian == ord('l') else 'nobody-be'
+    return '%s%s:%s' % ('' if endian == ord('l') else 'B', sig or '', hashlib.sha1(bytes(raw_body)).hexdigest()[:10])
 
 
 def tok(x):
@@ -224,7 +232,7 @@ class Net:
     def begin(self, kind, i, raw):
         st = Step()
         st.kind, st.i = kind, i
-        st.sent = parse(self.message, raw) if raw is not None else None
+        st.sent = parse(self.message, raw, sent=True) if raw is not None else None
         st.heads = self.heads()
         st.alive = [c['alive'] for c in self.clients]
         st.names_before = [c['p'].uniqueName for c in self.clients]
@@ -284,7 +292,7 @@ class Net:
         c['alive'] = False
 
 
-def parse(message, raw):
+def parse(message, raw, sent=False):
     m = message.parseMessage(raw, [])
     d = {
         't': m._messageType, 'serial': m.serial,
@@ -293,8 +301,12 @@ def parse(message, raw):
         'member': getattr(m, 'member', None), 'err': getattr(m, 'error_name', None),
         'rs': getattr(m, 'reply_serial', None), 'dest': m.destination, 'sender': m.sender,
         'sig': m.signature, 'body': repr(m.body) if m.signature else None,
-        'btok': body_token(m.signature, m.body),
+        'endian': raw[0], 'rawbody': bytes(m.rawBody).hex(),
     }
+    if m.sender is None and not sent:
+        d['btok'] = body_token(m.signature, m.body)         # built by the bus
+    else:
+        d['btok'] = raw_token(raw[0], m.signature, m.rawBody)
     return d
 
 
@@ -327,7 +339,15 @@ def build(message, B, md):
     m.expectReply = not (fl & 1)
     m.autoStart = not (fl & 2)
     m._marshal(False)
-    return m.rawMessage
+    if not md.get('be'):
+        return m.rawMessage
+    # the same message in big-endian byte order (txdbus itself only ever writes little-endian bodies)
+    from txdbus import marshal
+    bin_body = b''.join(marshal.marshal(sig, body, lendian=False)[1]) if sig else b''
+    hdr = b''.join(marshal.marshal(message._headerFormat,
+                                   [ord('B'), m._messageType, fl & 3, 1, len(bin_body), m.serial, m.headers],
+                                   lendian=False)[1])
+    return hdr + marshal.pad['header'](len(hdr)) + bin_body
 
 
 def op_to_msgs(op, names):
@@ -464,8 +484,9 @@ def run_history(ops):
                     cls = 'exec'
                 else:
                     st.op = ('addmatch', rule)
-                    opt = 'addmatch %s %s %s %s' % (tok(rule.get('interface')), tok(rule.get('member')),
-                                                    tok(rule.get('path')), tok(rule.get('destination')))
+                    opt = 'addmatch %s %s %s %s %s' % (tok(MTYPES.get(rule.get('type'))), tok(rule.get('interface')),
+                                                       tok(rule.get('member')), tok(rule.get('path')),
+                                                       tok(rule.get('destination')))
             if cls == 'always':
                 st.op = ('always',)
                 opt = 'always'
@@ -509,7 +530,7 @@ def impl_lines(net):
 def rule_matches_spec(rule, m):
     """DBus match rule semantics for the keys this harness uses."""
     if 'type' in rule:
-        if {'method_call': 1, 'method_return': 2, 'error': 3, 'signal': 4}.get(rule['type']) != m['t']:
+        if MTYPES.get(rule['type']) != m['t']:
             return False
     for k, f in (('interface', 'iface'), ('member', 'member'), ('path', 'path'), ('destination', 'dest')):
         if k in rule and m[f] != rule[k]:
@@ -518,6 +539,8 @@ def rule_matches_spec(rule, m):
 
 
 CONTENT = ('t', 'serial', 'flags', 'path', 'iface', 'member', 'err', 'rs', 'dest', 'sig', 'body')
+WIRE = ('endian', 'rawbody')
+MTYPES = {'method_call': 1, 'method_return': 2, 'error': 3, 'signal': 4}
 
 
 def oracle(net):
@@ -602,6 +625,12 @@ def oracle(net):
             if diff:
                 add('forwarded-content-changed', 'the bus changed %s of a forwarded message' % ','.join(diff),
                     dict((f, d[f]) for f in diff), dict((f, m[f]) for f in diff))
+            else:
+                wdiff = [f for f in WIRE if d[f] != m[f]]
+                if wdiff:
+                    add('forwarded-body-reencoded', 'the bus re-encoded the body of a forwarded message (%s differ; '
+                        'the decoded values are equal)' % ','.join(wdiff),
+                        dict((f, d[f]) for f in wdiff), dict((f, m[f]) for f in wdiff))
             recv[j].append((true, d['dest'], d['serial']))
         dest = m['dest']
         mprime = dict(m)
@@ -802,7 +831,7 @@ def body_histories():
                 ops, serial = setup3(2)
                 ops.append(['msg', 0, dict(t=t, serial=serial, flags=fl, dest='@1', forged='@1', body=key, rs=3,
                                            err='org.ex.Error', path='/x', iface='org.ex.I', member='Foo')])
-                ops.append(['msg', 1, dict(t=t, serial=serial + 1, flags=fl, dest='@0', body=key, rs=4,
+                ops.append(['msg', 1, dict(t=t, serial=serial + 1, flags=fl, dest='@0', body=key, rs=4, be=True,
                                            err='org.ex.Error', path='/x', iface='org.ex.I', member='Foo')])
                 yield ops
 
@@ -810,7 +839,7 @@ def body_histories():
 def random_rule(rng, typed):
     r = {}
     if typed and rng.random() < 0.7:
-        r['type'] = 'signal'
+        r['type'] = 'signal' if rng.random() < 0.8 else rng.choice(['method_call', 'method_return', 'error'])
     if rng.random() < 0.6:
         r['interface'] = rng.choice(IFACES)
     if rng.random() < 0.4:
@@ -845,6 +874,8 @@ def random_msg(rng, i, nconn, serial, typed):
               path=rng.choice(PATHS), iface=rng.choice(IFACES + ([None] if t == 1 else [])),
               member=rng.choice(MEMBERS), err='org.ex.Error', rs=rng.randrange(1, 50),
               body=rng.choice(BODY_KEYS))
+    if rng.random() < 0.2:
+        md['be'] = True
     return ['msg', i, md]
 
 
